@@ -10,6 +10,8 @@
 -/
 import Fir.Model.Resample
 import Fir.Proofs.FixedLemmas
+import Fir.Proofs.IdealLemmas
+import Fir.Proofs.ImageLemmas
 
 namespace Fir.C10
 open Fir
@@ -68,6 +70,76 @@ theorem quantOK_fails_at_13678_taps :
     unfold passInt
     simp only [h]
     decide
+
+/-- where `QuantOK` comes from: if every integer coefficient is a rounding (either convention) of
+    `wᵢ·2^p` for ideal weights that sum to one up to `ε` (the float normalisation error), then `QuantOK`
+    holds for every component value up to `m` as soon as `m·(n/2 + ε·2^p) < 2^(p−1)`, `n` the number of
+    taps.  For 8-bit data and ε = 0 that is `255·n < 2^p`: at the largest precision 21 every window up to
+    8224 taps is exact whatever the kernel - and F17's 13,678 taps lie beyond it. -/
+theorem quantOK_of_rounded_weights (ws : List ℚ) (ks : List Int) (p : Nat) (m v : Int) (ε : ℚ)
+    (hlen : ks.length = ws.length)
+    (hq : ∀ i, i < ws.length → |(ks.getD i 0 : ℚ) - ws.getD i 0 * 2 ^ p| ≤ 1 / 2)
+    (hsum : |ws.sum - 1| ≤ ε) (hv0 : 0 ≤ v) (hv : v ≤ m)
+    (hn : (m : ℚ) * ((ws.length : ℚ) / 2 + ε * 2 ^ p) < 2 ^ (p - 1)) : QuantOK ks p v :=
+  quantOK_of_sum_close ks p m v hv0 hv
+    (Fir.Proofs.quant_sum_close_int ws ks p m ε (le_trans hv0 hv) hlen hq hsum hn)
+
+/-- 8-bit, exact weights: every uniform row is reproduced exactly by any window of fewer than `2^p/255` taps -/
+theorem uniform_exact_u8_of_rounded_weights (ws : List ℚ) (ks : List Int) (p : Nat) (v : Int)
+    (hp1 : 1 ≤ p) (hp : p ≤ 22) (hlen : ks.length = ws.length)
+    (hq : ∀ i, i < ws.length → |(ks.getD i 0 : ℚ) - ws.getD i 0 * 2 ^ p| ≤ 1 / 2)
+    (hsum : ws.sum = 1) (hv0 : 0 ≤ v) (hv : v ≤ 255)
+    (hn : 255 * (ws.length : ℚ) < 2 ^ p) :
+    passInt .u8 ks (List.replicate ks.length v) p = v := by
+  refine uniform_exact_u8 ks p v hp1 hp hv0 hv
+    (quantOK_of_rounded_weights ws ks p 255 v 0 hlen hq (by simp [hsum]) hv0 hv ?_)
+  have h2 : (2 : ℚ) ^ p = 2 * 2 ^ (p - 1) := by
+    obtain ⟨q, rfl⟩ : ∃ q, p = q + 1 := ⟨p - 1, by omega⟩
+    rw [pow_succ, Nat.add_sub_cancel, mul_comm]
+  push_cast
+  linarith
+
+/-! ### whole images: the statements above lifted to `Fir.horizPass` / `Fir.vertPass`, the functions the
+    executable model (and through the correspondence check the implementation) evaluates.
+    `Fir.Proofs.chunkAt k c i` is window `i` (first source index, integer coefficients) of the quantised
+    coefficients `Fir.Proofs.qOf k c`; `hWindow` / `vWindow` are the samples that window reads. -/
+open Fir.Proofs in
+/-- 8-bit horizontal pass: if every sample read is `v` and every window satisfies `QuantOK`, every
+    component of the result is `v` -/
+theorem horizPass_uniform_u8 (src : Img) (dstW dstH offset : Nat) (c : Coeffs) (v : Int)
+    (hv0 : 0 ≤ v) (hv : v ≤ 255) (hp1 : 1 ≤ (qOf .u8 c).precision) (hp : (qOf .u8 c).precision ≤ 22)
+    (hread : ∀ x y ch, x < dstW → y < dstH → ch < src.n → ∀ s ∈ hWindow .u8 src offset c x y ch, s = v)
+    (hq : ∀ x, x < dstW → QuantOK (chunkAt .u8 c x).2.toList (qOf .u8 c).precision v)
+    (x y ch : Nat) (hx : x < dstW) (hy : y < dstH) (hc : ch < src.n) :
+    (horizPass .u8 src dstW dstH offset c).get x y ch = v :=
+  Fir.Proofs.horizPass_uniform_u8 src dstW dstH offset c v hv0 hv hp1 hp hread hq x y ch hx hy hc
+
+open Fir.Proofs in
+theorem vertPass_uniform_u8 (src : Img) (dstW dstH offset : Nat) (c : Coeffs) (v : Int)
+    (hv0 : 0 ≤ v) (hv : v ≤ 255) (hp1 : 1 ≤ (qOf .u8 c).precision) (hp : (qOf .u8 c).precision ≤ 22)
+    (hread : ∀ x y ch, x < dstW → y < dstH → ch < src.n → ∀ s ∈ vWindow .u8 src offset c x y ch, s = v)
+    (hq : ∀ y, y < dstH → QuantOK (chunkAt .u8 c y).2.toList (qOf .u8 c).precision v)
+    (x y ch : Nat) (hx : x < dstW) (hy : y < dstH) (hc : ch < src.n) :
+    (vertPass .u8 src dstW dstH offset c).get x y ch = v :=
+  Fir.Proofs.vertPass_uniform_u8 src dstW dstH offset c v hv0 hv hp1 hp hread hq x y ch hx hy hc
+
+open Fir.Proofs in
+theorem horizPass_uniform_u16 (src : Img) (dstW dstH offset : Nat) (c : Coeffs) (v : Int)
+    (hv0 : 0 ≤ v) (hv : v ≤ 65535) (hp1 : 1 ≤ (qOf .u16 c).precision) (hp : (qOf .u16 c).precision ≤ 46)
+    (hread : ∀ x y ch, x < dstW → y < dstH → ch < src.n → ∀ s ∈ hWindow .u16 src offset c x y ch, s = v)
+    (hq : ∀ x, x < dstW → QuantOK (chunkAt .u16 c x).2.toList (qOf .u16 c).precision v)
+    (x y ch : Nat) (hx : x < dstW) (hy : y < dstH) (hc : ch < src.n) :
+    (horizPass .u16 src dstW dstH offset c).get x y ch = v :=
+  Fir.Proofs.horizPass_uniform_u16 src dstW dstH offset c v hv0 hv hp1 hp hread hq x y ch hx hy hc
+
+open Fir.Proofs in
+theorem vertPass_uniform_u16 (src : Img) (dstW dstH offset : Nat) (c : Coeffs) (v : Int)
+    (hv0 : 0 ≤ v) (hv : v ≤ 65535) (hp1 : 1 ≤ (qOf .u16 c).precision) (hp : (qOf .u16 c).precision ≤ 46)
+    (hread : ∀ x y ch, x < dstW → y < dstH → ch < src.n → ∀ s ∈ vWindow .u16 src offset c x y ch, s = v)
+    (hq : ∀ y, y < dstH → QuantOK (chunkAt .u16 c y).2.toList (qOf .u16 c).precision v)
+    (x y ch : Nat) (hx : x < dstW) (hy : y < dstH) (hc : ch < src.n) :
+    (vertPass .u16 src dstW dstH offset c).get x y ch = v :=
+  Fir.Proofs.vertPass_uniform_u16 src dstW dstH offset c v hv0 hv hp1 hp hread hq x y ch hx hy hc
 
 /-! ### non-vacuity -/
 example : QuantOK [4096, 8192, 4096] 14 255 := by decide
